@@ -12,7 +12,6 @@ import (
 	"os"
 
 	"verifharness/core"
-	_ "verifharness/engines"
 )
 
 func main() {
